@@ -152,6 +152,7 @@ def probe (j : Json) : R Json := do
       obj [("how", jstr (howClass c.how)), ("status", Json.num (JsonNumber.fromInt c.status)),
          ("verbose", jbool ((parseBool (if c.verbose then "1" else "0")).getD false)), ("debug", jbool debug),
          ("gocmd", jstr gocmd), ("timeout", jint (if c.timeout < 0 then -1 else c.timeout)), ("cwd", jstr dir),
+         ("plat", jstr ((fldStr j "host").toOption.getD "")),   -- no -goos: the magefile is built for the host
          ("env", jstr "same"), ("stdin", jstr "same")]
   if way == "static" then
     let c := childMain info conv outcomeOf E argv
